@@ -26,7 +26,9 @@ PROPS = {
         'trusted': NUMPY_TRUST,
         'assumptions': ['NLI handed to add_nli lies in [0, channel power] (the property limits itself to launch powers '
                         'where the first-order NLI estimate stays below the channel power)'],
-        'extra': [{'name': 'params_load', 'kind': 'bounded', 'script': 'bounded/params_load.py', 'timeout': 900}],
+        'extra': [{'name': 'params_load', 'kind': 'bounded', 'script': 'bounded/params_load.py', 'timeout': 900},
+                  # the shares after every element of real paths (fibres of either dispersion sign, the three NLI methods, Raman, multi-band)
+                  {'name': 'path_monotone', 'kind': 'bounded', 'script': 'bounded/path_monotone.py', 'timeout': 2400}],
     },
     'C04': {
         'level': 'proof',
